@@ -278,14 +278,14 @@ def delegate_contracts(tier='quick'):
                         slots[p.position] = (p.key, 'args[%d]' % v)
                     elif p.key in inv_kw:
                         slots[p.position] = (
-                            p.key, 'kwargs["%s"]' % inv_kw[p.key][0])
+                            p.key, 'old_kwargs["%s"]' % inv_kw[p.key][0])
                     else:
                         slots[p.position] = (
                             p.key, 'self.parameters["%s"].default' % p.key)
                 elif p.position is None and p.key != '**':
                     if p.key in inv_kw:
                         kwslots[p.key] = (
-                            p.key, 'kwargs["%s"]' % inv_kw[p.key][0])
+                            p.key, 'old_kwargs["%s"]' % inv_kw[p.key][0])
                     else:
                         kwslots[p.key] = (
                             p.key, 'self.parameters["%s"].default' % p.key)
@@ -295,7 +295,7 @@ def delegate_contracts(tier='quick'):
             for i in range(nvis, len(args)):
                 extra.append(('*', 'args[%d]' % i))
             for call_name in inv_kw.get('**', []):
-                kwslots[call_name] = ('**', 'kwargs["%s"]' % call_name)
+                kwslots[call_name] = ('**', 'old_kwargs["%s"]' % call_name)
             checks = ['ufn("vt.check", self.parameters["%s"].value_type, %s,'
                       ' ret="Bool")' % (k, v)
                       for k, v in list(slots.values()) + extra +
@@ -304,6 +304,11 @@ def delegate_contracts(tier='quick'):
             ens = [allok,
                    'len(LOCAL_positional_args) == %d' % (npos + len(extra)),
                    'len(LOCAL_keyword_args) == %d' % len(kwslots)]
+            # the caller's keyword dict is left as it was: choose_overload
+            # hands the same dict to every candidate in turn
+            ens.append(' and '.join(
+                ['len(kwargs) == %d' % len(kwkeys)] +
+                ['"%s" in kwargs' % k for k in kwkeys]))
             ordered = [slots[i] for i in sorted(slots)] + extra
             for i, (k, v) in enumerate(ordered):
                 ens.append(
